@@ -266,7 +266,7 @@ func All() []*Codec {
 			}
 			u := make([]byte, sizes[0])
 			fill(u, 0, 0, seed)
-			if seed%2 == 1 && len(u) >= len(vp9key) {
+			if seed%2 == 1 && len(u) >= len(vp9key)+3 {
 				copy(u, vp9key)
 			} else {
 				u[0] = 0x86 // frame marker, profile 0, non-key frame, shown
@@ -661,7 +661,7 @@ func All() []*Codec {
 	// ---------------- KLV: a unit is 1..3 KLV items (16-byte universal label, BER length, value)
 	cs = append(cs, &Codec{
 		Name: "klv", Base: "klv", MinLimit: 4, MaxUnits: 3, MinUnit: 17, Fragments: true, Joined: true, Video: true, MarkerLast: true,
-		Stateful: true, PayloadType: 96, Cap: 0, CapDoc: "none documented", HeaderSizes: []int{0},
+		Stateful: true, PayloadType: 96, Cap: 2 << 20, CapDoc: "none documented for KLV; 2 MiB used as a notional bound", HeaderSizes: []int{0},
 		Make: func(sizes []int, seed int) (Frame, bool) {
 			var f Frame
 			for i, s := range sizes {
